@@ -186,6 +186,12 @@ void h_getters_allocfail (void)
 	pchar *r = p_ini_file_parameter_string (f, "s", "k", NULL); if (r != NULL) CANARY ("string copied"); p_free (r);
 #elif GETTER == 3
 	PList *l = p_ini_file_parameter_list (f, "s", "k"); if (list_len (l) == 2) CANARY ("two items"); free_str_list (l);
+#elif GETTER == 5
+	/* C16: the shortest list there is: one item of one character */
+	g_alloc_may_fail = 0; p1->value = "{c}";
+	PList *l = p_ini_file_parameter_list (f, "s", "k");
+	OBL (list_len (l) == 1 && str_eq (l->data, "c"), "list getter: a single one-character item is a list");
+	if (list_len (l) == 1) CANARY ("one item"); free_str_list (l);
 #else
 	/* C16: list conversion, allocation never fails: a longer item followed by shorter ones, repeated blanks */
 	g_alloc_may_fail = 0; p1->value = "{abc d  ef}";
@@ -194,7 +200,7 @@ void h_getters_allocfail (void)
 	if (list_len (l) == 3) CANARY ("three items"); free_str_list (l);
 #endif
 	OBL (g_allocs == g_frees, "C18/C20 getter: whichever allocation failed, nothing the getter allocated remains once its result is released");
-#if GETTER != 4
+#if GETTER < 4
 	if (g_alloc_failed) CANARY ("an allocation failed");
 #else
 	CANARY ("end");
